@@ -86,10 +86,50 @@ fn classes(s: &Stats, t: &Trace) -> Vec<&'static str> {
     c
 }
 
+/// Inbound publishes whose remaining length sits on the 1/2/3/4-byte varint boundaries (needs a
+/// receive buffer of more than 2 MiB), delivered under header-splitting read patterns.
+fn large_inbound_cases() -> Vec<Case> {
+    let mut out = Vec::new();
+    for boundary in [128u32, 16_384, 2_097_152] {
+        for d in [-2i32, -1, 0, 1] {
+            for (qi, cuts) in [(0u8, vec![]), (1, vec![1, 2, 3, 4, 5]), (2, vec![2, 4])] {
+                let rl = (boundary as i64 + d as i64) as u32;
+                // remaining length = 2 + topic(3) + [2 pid] + 1 (props) + payload
+                let overhead = 2 + 3 + if qi > 0 { 2 } else { 0 } + 1;
+                let payload = rl - overhead;
+                let steps = vec![
+                    Step::Broker(BrokerAct::Deliver { qos: qi, retain: qi == 1, topic: TopicSpec::new(3, 1), payload: PayloadSpec::new(payload, 3), props: vec![], redeliver: None }),
+                    Step::PollIdle { max: 4 },
+                    Step::Broker(BrokerAct::PubRel { which: 0, unknown: None }),
+                    Step::PollIdle { max: 4 },
+                ];
+                out.push(Case {
+                    cfg: Cfg { rx: rl as usize + 16, tx: 256, ..Cfg::default() },
+                    broker: BrokerMode::Scripted,
+                    conns: vec![ConnScript {
+                        connect: ConnectSpec { io: IoCfg { read_chunks: vec![], write_chunks: vec![], pend_first: false, read_cuts: cuts.iter().map(|c| 5 + *c).collect() }, ..ConnectSpec::default() },
+                        steps,
+                        end: crate::trace::EndHow::Drop,
+                    }],
+                });
+            }
+        }
+    }
+    out
+}
+
 pub fn run(ctx: &Ctx, def: &ScenDef) -> i32 {
     let profile = (def.profile)(ctx.tier);
     let cases = ctx.tier.pick(def.cases.0, def.cases.1);
-    let agg = run_prop(
+    let mut pre = Agg::default();
+    if def.id == "C04" {
+        for case in large_inbound_cases() {
+            let (violations, stats, trace) = eval_case(&case);
+            let delivered = stats.deliveries > 0;
+            pre.record(ctx, "case", &case, Eval { nontrivial: delivered, classes: vec!["inbound-at-varint-boundary"], violations, watchdog: trace.watchdog });
+        }
+    }
+    let mut agg = run_prop(
         ctx,
         "case",
         16,
@@ -100,6 +140,11 @@ pub fn run(ctx: &Ctx, def: &ScenDef) -> i32 {
             Eval { nontrivial: (def.nontrivial)(&stats, &trace), classes: classes(&stats, &trace), violations, watchdog: trace.watchdog }
         },
     );
+    let pre_failed = pre.failure.clone();
+    agg.merge(pre);
+    if pre_failed.is_some() {
+        agg.failure = pre_failed;
+    }
     finish(
         ctx,
         agg,
